@@ -471,7 +471,7 @@ class NonlinearConstraints:
         c_ub = []
         c_eq = []
         for i, pc in enumerate(self.pcs):
-            val = pc.fun.fun(x)
+            val = np.asarray(pc.fun.fun(x), dtype=float)
             if self._verbose:
                 with np.printoptions(**PRINT_OPTIONS):
                     with suppress(AttributeError):
